@@ -522,6 +522,11 @@ theorem group_is_phase_plus_dispersion_wavelength (LAMDA TC P PV XC : ℝ) (hL :
 example : ∃ σ : ℝ, σ ≠ 0 ∧ (238.0185 : ℝ) - σ ^ 2 ≠ 0 ∧ (57.362 : ℝ) - σ ^ 2 ≠ 0 :=
   ⟨1, by norm_num, by norm_num, by norm_num⟩
 
+/-- **Angle-class arguments.** Every angle parameter of `polar2rect` is read by the source only through
+`angular_typecheck` (list regenerated by the translator from the current text), so passing an angle object of any of
+the five classes is passing its decimal-degree value: the theorems of this file, stated for numbers, cover them. -/
+theorem angle_arguments_reduced : GenR.Convert.polar2rect_angle_params = ["theta"] := rfl
+
 end GeodeVerif.C19
 
 #print axioms GeodeVerif.C19.join_radiate
